@@ -67,6 +67,8 @@ class SimRandom:
         self.bias_fired = {'P1': 0, 'P2': 0}
         self.max_draws = max_draws
         self.diverged_at = None
+        self.prefer = None        # optional scheduler bias: f(site, choices) -> index | None
+        self.prefer_fired = 0
         self.side = None          # side PRNG while paused (draws not on the tape)
         self.side_draws = 0
         self._wcache = None
@@ -190,7 +192,20 @@ class SimRandom:
     def choice(self, choices):
         if not isinstance(choices, (list, tuple, str, range)):
             choices = list(choices)
-        r = choices[self._draw('choice', len(choices), self._site())]
+        site = self._site()
+        forced = None
+        if self.prefer is not None and self.src is None and self.side is None and choices:
+            forced = self.prefer(site, choices)
+        if forced is not None:
+            # a directed (still legal) outcome chosen by the scheduler; recorded on the tape
+            # like any other draw, so the run replays exactly
+            self.prefer_fired += 1
+            self.sim.work(1)
+            self.tape.append([OPC['choice'], len(choices), forced])
+            self.sites.append(site)
+            r = choices[forced]
+        else:
+            r = choices[self._draw('choice', len(choices), site)]
         if TRACE is not None:
             f = sys._getframe(1)
             chain = []
